@@ -11,6 +11,11 @@ from array import array
 
 from . import boot
 
+# the harness keeps its own handle on the real clock: the "clock" environment variant replaces
+# time.time & co. for the code under test
+_now = time.monotonic
+BUDGET_SCALE = float(os.environ.get("VERIF_BUDGET_SCALE", "1"))
+
 EVIDENCE_DIR = os.environ.get("VERIF_EVIDENCE_DIR") or os.path.join(boot.VERIF_DIR, "evidence")
 REPLAY_DIR = os.environ.get("VERIF_REPLAY_DIR") or os.path.join(boot.VERIF_DIR, "replays")
 FINDINGS_FILE = os.path.join(boot.VERIF_DIR, "known_findings.json")
@@ -68,7 +73,7 @@ class Ctx:
         self.level = level
         self.replay_mode = replay_mode
         self.rng = random.Random("%s/%d/%d/%s" % (prop, seed, shard, tier))
-        self.t0 = time.time()
+        self.t0 = _now()
         self.wall_limit = wall_limit or (600 if tier == "quick" else 5400)
         self.evaluations = 0
         self.distinct = set()
@@ -90,6 +95,7 @@ class Ctx:
         self.findings = Findings()
         self.classify = None        # set by the property module: witness -> mechanism | None
         self.exhaustive = None
+        self.variant = None         # environment variant of this process (vmon/envs.py)
         self.reach = None           # {file: [lines reached]} from reach.stop()
         self.recent_noise = None    # set by noise.burst(): calls to OTHER library functions just made
         self._noise_age = 0
@@ -97,12 +103,13 @@ class Ctx:
     # ---- budgets -------------------------------------------------------
     def budget(self, quick, thorough=None):
         """Number of cases for THIS process. thorough budgets are per shard."""
-        if self.tier == "quick":
-            return quick
-        return thorough if thorough is not None else quick * 20
+        n = quick if self.tier == "quick" else (thorough if thorough is not None else quick * 20)
+        if BUDGET_SCALE != 1:
+            n = max(1, int(n * BUDGET_SCALE))
+        return n
 
     def alive(self):
-        if time.time() - self.t0 > self.wall_limit:
+        if _now() - self.t0 > self.wall_limit:
             self.watchdog = True
             return False
         return True
@@ -142,6 +149,8 @@ class Ctx:
     def need(self, cls, quick, thorough=None):
         """Run is inconclusive unless class/counter `cls` reached this count."""
         n = quick if self.tier == "quick" else (thorough if thorough is not None else quick)
+        if BUDGET_SCALE != 1:
+            return      # reduced-budget environment variant: its classes are added to the main run's
         self.thresholds[cls] = n
 
     def sample(self, obj, tag="case", per_tag=2):
@@ -213,7 +222,7 @@ class Ctx:
             "violation_records": self.violation_records, "known_hits": self.known_hits,
             "oracle_faults": self.oracle_faults, "notes": self.notes,
             "watchdog": self.watchdog, "rule": self.rule, "assumptions": self.assumptions,
-            "extra": self.extra, "wall_s": time.time() - self.t0,
+            "extra": self.extra, "wall_s": _now() - self.t0,
             "exhaustive": self.exhaustive, "reach": self.reach,
         }
 
@@ -279,7 +288,7 @@ def finish(state, wall_s, failed_shards=0):
         got = state["classes"].get(cls, state["counters"].get(cls, 0))
         if got < n:
             unmet[cls] = {"need": n, "got": got}
-    line_reach, unreached = None, []
+    line_reach, unreached, never_entered = None, [], []
     if state.get("reach") is not None:
         from . import reach as _reach
         try:
@@ -289,6 +298,13 @@ def finish(state, wall_s, failed_shards=0):
             if exempt:
                 line_reach["not_expected_to_be_entered"] = exempt
                 unreached = [u for u in unreached if u.split(":")[-1].split(".")[-1] not in exempt]
+            never_entered = list(unreached)
+            # a helper the code no longer calls is dead code, not blindness of the monitor (refactors do
+            # that): the run is inconclusive only when NOTHING the anchors name was executed
+            reached_any = any(f.get("anchored_functions_reached", 0) for f in line_reach.values()
+                              if isinstance(f, dict))
+            if reached_any:
+                unreached = []
         except Exception as exc:      # reach is evidence about the workload; its failure is never a verdict
             line_reach = {"error": repr(exc)}
     if state["violations"] > 0:
@@ -323,7 +339,7 @@ def finish(state, wall_s, failed_shards=0):
         coverage["exhaustive"] = bool(state["exhaustive"])
     if line_reach is not None:
         coverage["line_reach_of_anchored_code"] = line_reach
-        coverage["anchored_functions_never_entered"] = unreached
+        coverage["anchored_functions_never_entered"] = never_entered
     coverage.update(state["extra"])
     evidence = {
         "property_id": prop, "tier": state["tier"], "seed": state["seed"],
